@@ -196,6 +196,18 @@ add("C06", "model_checking",
     "are counted, not judged.",
     "exhaustive enumeration of single-group / single-rule reforms with a differential oracle over all nodes", "2/C06")
 
+add("C14", "model_checking",
+    "Explicit-state exploration of API-call histories on the live process: an alphabet of ~27 calls (environment set-up in three argument forms, "
+    "function loading, simulations over populations x targets x rounding x debug x data forms incl. dicts / frames needing type conversion and "
+    "non-default indexes, parameter and function reforms, user aggregation specs, make_vectorizable on single rules and on every rule, "
+    "synthetic data, a failing call); every single call, ALL ordered pairs and triples over the state-relevant calls are executed, each "
+    "history in a child forked from a pristine parent. After every step the result must equal the result of the same call in a fresh "
+    "interpreter (one subprocess per descriptor, run twice for cross-process determinism), the caller-owned data / params / functions / targets "
+    "must be unchanged, and a digest of the process-global state (function code and __info__ of every gettsim module, registries, config "
+    "globals, numpy error state, warning filters) is recorded per step to de-duplicate states and to direct the search.",
+    "Depth 3 over the listed alphabet; results are compared through bit-exact digests; what a call leaves in OS-level state (files, env) is not observed.",
+    "explicit-state exploration of bounded call histories with per-step conformance to fresh-process executions", "2/C14")
+
 NOT_APPLICABLE = []
 
 
